@@ -78,6 +78,10 @@ pub struct ProcPlan {
     /// the files of an exiting process before it notifies the parent, so the window is real.
     #[serde(default)]
     pub exit_lag: u64,
+    /// Most bytes a single parent `read` returns (0 = whatever is there): reads shorter than the
+    /// buffer are legal for pipes and move the chunk boundaries the parent's read loop sees.
+    #[serde(default)]
+    pub read_max: usize,
 }
 
 impl ProcPlan {
@@ -92,6 +96,7 @@ impl ProcPlan {
             parent_costs: vec![1],
             short_writes: false,
             exit_lag: 0,
+            read_max: 0,
         }
     }
 }
@@ -737,7 +742,10 @@ impl ChildIo for SimChild {
             Fd::Stdin => Err(io::ErrorKind::InvalidInput.into()),
             Fd::Stdout => loop {
                 if !p.stdout.buf.is_empty() {
-                    let n = buf.len().min(p.stdout.buf.len());
+                    let mut n = buf.len().min(p.stdout.buf.len());
+                    if p.plan.read_max > 0 {
+                        n = n.min(p.plan.read_max);
+                    }
                     for (dst, src) in buf.iter_mut().zip(p.stdout.buf.drain(..n)) {
                         *dst = src;
                     }
